@@ -271,7 +271,7 @@ CHECKS = {
         "category": "other",
         "text": "Narrow claim (see DESIGN.md 5): the headline statement relates two executions and is out of reach "
                 "of single-run function contracts. Checked deductively in the weak sense of FRAME obligations: for "
-                "26 functions on the seeded path the current source is scanned for tagged reads of run-to-run "
+                "29 functions on the seeded path the current source is scanned for tagged reads of run-to-run "
                 "nondeterminism (global numpy/random RNG state, fresh entropy, string-hash-seed dependence via "
                 "hash() or set iteration idioms, directory listing order) and every read outside the function's "
                 "declared frame fails an obligation; declared exceptions carry their justification (integer sets, "
